@@ -5,8 +5,11 @@ Property statements only.  Model: `KyroModel/Server/RateLimit.lean` (exact arith
 engine/src/rate_limiter.rs by the `ratelimit` correspondence run of `./check C19`: the real
 `RateLimiter` runs under a virtual monotonic clock (in-binary interposition of `clock_gettime`),
 so model and implementation see the same timestamps.
+* first use of a tenant under concurrency: `Theorems/C19FirstUse.lean` (`C19_first_use_one_bucket`,
+  `C19_first_use_private_buckets_exceed_burst`).
 -/
 import KyroModel.Lemmas.RateLimit
+import KyroModel.Theorems.C19FirstUse
 
 namespace KyroModel.C19
 open KyroModel Bucket
